@@ -197,7 +197,7 @@ func (p *Program) Eval() Expected {
 		case "sload":
 			v := mk()
 			x := uint32(0)
-			for j := 0; j < o.N; j++ {
+			for j := 0; j < o.N+max(o.Rep-1, 0); j++ {
 				x ^= in[o.K][int(o.Imm)/4+j]
 			}
 			for i := range v {
